@@ -39,6 +39,7 @@ RULES = {
     "C05-E12": "a decimal number with a suffix handed to a reader that takes no suffix (Bool, the integer and the floating readers) queues exactly -138 and the reader returns FALSE",
     "C05-E10": "-363 is raised only for input that does not fit: the overrun guard is exact (shared with C08-H8)",
     "C05-E11": "the parameter counter that decides whether a comma must be consumed is at least as wide as the element count of the array readers (it cannot wrap inside one unit)",
+    "C05-E13": "(shared with C13-T10) every item of a list is delivered whole: the data parser consumes the white space behind each item, so the comma is found where the list walker looks for it",
     "C05-E6": "SCPI_Parameter returns TRUE only for recognised program-data classes; all other paths invalidate the token and queue a -1xx error",
 }
 
@@ -812,6 +813,7 @@ def run(ck, fb, tier):
         rule_e12(ck, prog)
         from . import c13
         c13.rule_t7(K.RuleProxy(ck, {"C13-T7": "C05-E5"}), prog)
+        c13.rule_t10(K.RuleProxy(ck, {"C13-T10": "C05-E13"}), prog)
         rule_e7(ck, prog, S)
         rule_e8(ck, prog, S, spec, ts)
     ck.trust("spec/param_errors.json (error codes per cause, conversions that cannot fail, licensed silent case)")
